@@ -137,16 +137,21 @@ def run():
         chk.cov["spec_vs_go"] = "%d Go-legal cases: Go prints exactly what EgoControl predicts" % len(gl)
         # 4. R: run everything on the real interpreter
         rng = random.Random(vf.SEED)
+        batch = BATCH * 3 if thorough else BATCH        # start-up dominates the cost of a process: bigger files when there are many
         clean = [c for c in cases if not c["feat"]]
         last = [c for c in cases if c["feat"]]          # cases that jump out of try blocks close a file
         rng.shuffle(clean)
         files = []
         while clean or last:
-            b, clean = clean[:BATCH], clean[BATCH:]
+            b, clean = clean[:batch], clean[batch:]
             if last:
                 b.append(last.pop())
             files.append(b)
-        runs = _run_files(ego, env, sd, files, "b", both_opt=thorough)
+        # optimizer level 0 or 2 by file; thorough runs the larger (sampled) programs at both levels
+        runs = _run_files(ego, env, sd, files, "b")
+        if thorough:
+            big = [c for c in cases[nex:] if not c["feat"]]
+            runs += _run_files(ego, env, sd, [big[i:i + batch] for i in range(0, len(big), batch)], "o", both_opt=True)
         suspects, nlines, nrun, firstobs = [], 0, 0, None
         # a process that timed out, or never reached the first case, says nothing about the cases in it
         late = [(b, opt, p) for b, opt, (rc, so, se), p in runs if rc is None or "== 0" not in so]
